@@ -23,21 +23,21 @@ var contractBuiltins map[string]func(x *Exec, env *CEnv, n *CCall) (*CV, error)
 
 func init() {
 	libModels = map[string]libModel{
-		"bytes.Equal":              modelBytesEqual,
-		"bytes.Contains":           modelUninterpBool("bytes.contains"),
-		"errors.New":               modelErrorsNew,
-		"fmt.Errorf":               modelErrorf,
-		"errors.Is":                modelErrorsIs,
-		"encoding/hex.Decode":      modelHexDecode,
-		"strings.HasPrefix":        modelHasPrefix,
-		"strings.HasSuffix":        modelHasSuffix,
-		"sync/atomic.AddUint64":    modelAtomicAdd,
-		"sync/atomic.AddInt64":     modelAtomicAdd,
-		"(*sync.Mutex).Lock":       modelNop,
-		"(*sync.Mutex).Unlock":     modelNop,
-		"(*sync.Once).Do":          modelOnceDo,
-		"unicode.IsLetter":         modelUninterpRune("unicode.IsLetter"),
-		"unicode.IsDigit":          modelUninterpRune("unicode.IsDigit"),
+		"bytes.Equal":                              modelBytesEqual,
+		"bytes.Contains":                           modelUninterpBool("bytes.contains"),
+		"errors.New":                               modelErrorsNew,
+		"fmt.Errorf":                               modelErrorf,
+		"errors.Is":                                modelErrorsIs,
+		"encoding/hex.Decode":                      modelHexDecode,
+		"strings.HasPrefix":                        modelHasPrefix,
+		"strings.HasSuffix":                        modelHasSuffix,
+		"sync/atomic.AddUint64":                    modelAtomicAdd,
+		"sync/atomic.AddInt64":                     modelAtomicAdd,
+		"(*sync.Mutex).Lock":                       modelNop,
+		"(*sync.Mutex).Unlock":                     modelNop,
+		"(*sync.Once).Do":                          modelOnceDo,
+		"unicode.IsLetter":                         modelUninterpRune("unicode.IsLetter"),
+		"unicode.IsDigit":                          modelUninterpRune("unicode.IsDigit"),
 		"(*golang.org/x/sync/errgroup.Group).Go":   modelEgGo,
 		"(*golang.org/x/sync/errgroup.Group).Wait": modelEgWait,
 	}
